@@ -20,6 +20,17 @@
 // (and, to stay clear of doubt, other than '.' and '_' — see notes in the
 // result). Filler words use [g-zG-Z_] only, so every run of address characters
 // in a sink stems from a planted token.
+//
+// Violation signatures (see classify and splitClass):
+//
+//	residue:adjacent-addresses-single-delimiter        D5: one delimiter after a scrubbed address
+//	residue:ipv6-seven-groups-then-double-colon        D5b: g:g:g:g:g:g:g::
+//	residue:ipv6-double-colon-then-seven-groups        ::g:g:g:g:g:g:g
+//	residue:<shape>:<form>:<left>-<right>              any other miss that the address shows on its own
+//	residue:multi-address-interaction:<separation>     any other miss caused by other addresses
+//	split-dependence:<class>  partial-line-emitted  runaway-output
+//	interleaved-line:concurrent-writers  lost-or-duplicated-line:concurrent-writers
+//	panic:Scrub  panic:LogScrubber.Write  panic:LogScrubber.Write:concurrent-writers
 package c07
 
 import (
@@ -1076,7 +1087,7 @@ func randomLines(res *vlib.Result, root *vlib.Rand) {
 
 // 3. streams of several lines under many splittings.
 func splitStreams(res *vlib.Result, root *vlib.Rand) {
-	n := vlib.Scale(400, 20000)
+	n := vlib.Scale(400, 15000)
 	for i := 0; i < n; i++ {
 		r := root.SplitN("stream", i)
 		o := lineOpts{maxItems: 3, addrBias: 65, singleSep: 70, edgeBare: 65}
@@ -1118,7 +1129,7 @@ func splitStreams(res *vlib.Result, root *vlib.Rand) {
 func arbitraryStreams(res *vlib.Result, root *vlib.Rand) {
 	frag := []string{"1.2.3.4", "10.0.0.1:80", "::", "::1", ":", ".", "[", "]", "1:2:3:4:5:6:7:8", "fe80::1", "[2001:db8::1]:443", "\n", "\n", "\n", " ", " ", ",",
 		"\t", "\r\n", "zq", "x", "(", ")", "\x00", "\xff", "\xc3", "\u00a0", "999.999.999.999", "33:B6:FA:F6:94:CA", "ab", "0", "9", "f", ": ", "=", "%"}
-	n := vlib.Scale(300, 20000)
+	n := vlib.Scale(300, 10000)
 	for i := 0; i < n; i++ {
 		r := root.SplitN("arb", i)
 		var b []byte
